@@ -233,8 +233,17 @@ CHECKS["C02"] = dict(
          "compound statements deep (quick), 3 (thorough); blocks are assumed non-empty (the parser builds none).",
     design="§4 C02")
 
+CHECKS["C04"] = dict(
+    engine="E2 mirsym (MIR -> z3)", technique="symbolic execution of rustc MIR of the typing kernels the property is anchored in, z3 validity queries over constructor terms and finite tables, native replay with execution of the emitted Python",
+    text="Bounded symbolic model checking of the kernels that turn an ill-typed use into a compile-time error: operators are typed as the "
+         "documented method of the left operand (gen_op / gen_magic table), method and field accesses constrain result and arguments in the "
+         "documented direction (function_access, field_access, unify_fun_arg), two concrete types unify by the superset test with parent "
+         "and child in order (unify_type), call arity (call_parameters) and identifier look-up (match_id).",
+    note="RESTRICTED claim (anchored kernels, shared with C05 / C09): the whole-program guarantee - soundness of the constraint solver as a "
+         "whole - is not claimed; built-in signatures loaded from Python stub files, collections and comprehensions are outside.",
+    design="§4 C04")
+
 NOT_APPLICABLE = {
-    "C04": "oracle is Python's dynamic semantics over whole programs and the subject is the whole checker (HashSet/recursion out of reach of Kani; not loop-free for the MIR executor) (DESIGN §6)",
 }
 
 PENDING = {}
